@@ -143,19 +143,22 @@ def finish(pid, tier, seed, mod, plan, results, problems, t0, replay, quiet):
         rc = 1
         rdir = os.environ.get("VERIF_REPLAY_DIR") or os.path.join(HERE, "replays")
         os.makedirs(rdir, exist_ok=True)
-        written = set()
+        groups = {}
         for v in real:
-            blob = json.dumps({"m": v["monitor"], "f": v["feature"], "c": v["case"]}, sort_keys=True)
+            groups.setdefault((v["monitor"], v["feature"]), []).append(v)
+        for n, ((mon, feat), vs) in enumerate(sorted(groups.items(), key=lambda kv: kv[0])):
+            if n >= 15:
+                out_lines.append("  ... %d further kinds of violation not listed" % (len(groups) - n))
+                break
+            v = min(vs, key=lambda x: len(json.dumps(x["case"])))
+            blob = json.dumps({"m": mon, "f": feat, "c": v["case"]}, sort_keys=True)
             name = "%s-%s.json" % (pid, hashlib.sha1(blob.encode()).hexdigest()[:12])
             path = os.path.join(rdir, name)
-            if name not in written:
-                written.add(name)
-                with open(path, "w") as fp:
-                    json.dump({"property": pid, "seed": seed, "tier": tier, "monitor": v["monitor"],
-                               "feature": v["feature"], "detail": v["detail"], "origin": v.get("origin"),
-                               "case": v["case"]}, fp, indent=1)
-                out_lines.append("VIOLATION property=%s replay=%s" % (pid, os.path.relpath(path, HERE)))
-                out_lines.append("  monitor=%s feature=%s: %s" % (v["monitor"], v["feature"], v["detail"][:600]))
+            with open(path, "w") as fp:
+                json.dump({"property": pid, "seed": seed, "tier": tier, "monitor": mon, "feature": feat,
+                           "detail": v["detail"], "origin": v.get("origin"), "case": v["case"]}, fp, indent=1)
+            out_lines.append("VIOLATION property=%s replay=%s" % (pid, os.path.relpath(path, HERE)))
+            out_lines.append("  monitor=%s feature=%s (%d recorded): %s" % (mon, feat, len(vs), v["detail"][:600]))
     # ---- known findings
     if not replay:
         for f in mine:
